@@ -16,6 +16,7 @@ func init() {
 	register(&Prop{ID: "C20", Run: runC20,
 		Technique: "static analysis: dominating-condition sets of the guarded client calls in the API action handler, value-flow of the tested status and of the edited object, who-may-write footprint of the status edit (go/ssa)",
 		Decided: []string{
+			"the status the guards read is the live answer first, else the corrected persisted record (C08.latest, shared)",
 			"the view-level correction the edit's object has passed through writes only the run's own Status/StatusText under Status == running (C20.correction-footprint = C08.correct-table)",
 			"the parameters of an accepted start reach the spawned start command: request Body.Params → StartOptions.Params → the -p argument, whose quoting by the client and unquoting by the start command agree (C11.param-flow, shared)",
 			"start is issued only under latest-status != running, stop only under == running, a status edit only under latest-status != running with non-empty request id and step; the status tested is the DAG's latest status obtained by GetStatus(DagID) (C20.guards)",
@@ -76,6 +77,7 @@ func (e *Env) predLits(lits []ir.NLit) []boundLit {
 func runC20(e *Env) {
 	r := e.R
 	c11ParamFlow(e)                              // "a start passes the given parameters through unchanged"
+	c08Latest(e)                                 // the guards read GetStatus -> GetLatestStatus: the live answer first
 	cCorrectTable(e, "C20.correction-footprint") // the edit persists the object the view-level correction touched
 	fp := e.P.Pkg(feDagRel)
 	if fp == nil {
